@@ -110,7 +110,7 @@ def build(rng, adocs, plan):
     return ix
 
 
-def observe(s, q, aq, rng, missing):
+def observe(s, q, aq, rng, missing, topks=(2, 3, 5)):
     from whoosh import sorting, query
     obs = []
 
@@ -310,6 +310,18 @@ def observe(s, q, aq, rng, missing):
                             "docs": [int(h.docnum) for h in r]}
                 limited(mk)
             guard("collapse:" + fn, cfn)
+        # ... and the plain case at several limits: the best document of each key, score-ranked, top k (documents
+        # are displaced from a heap that is also the source of the pruning threshold)
+        for fn2, k2 in [(f2, k2) for f2 in (["tag", "num", "flag"] if len(topks) > 3 else [rng.choice(["tag", "num", "flag"])])
+                        for k2 in topks]:
+            def cfn2(fn=fn2, k=k2):
+                def mk():
+                    r = s.search(q, limit=k, collapse=fn, collapse_limit=1)
+                    return {"kind": "collapse", "path": "collapse=%s limit=1 k=%d" % (fn, k), "f": fn, "n": 1, "k": k,
+                            "sort": [], "order": [], "grev": False, "collapsed": -1, "len": len(r),
+                            "docs": [int(h.docnum) for h in r]}
+                limited(mk)
+            guard("collapse-topk:" + fn2, cfn2)
         # filter / mask
         afilt = world.rand_query(rng, 1, scored_only=True)
         amask = world.rand_query(rng, 1, scored_only=True)
@@ -419,11 +431,27 @@ def check(run):
                 "non-trivial = accepted (index, query) whose result set is neither empty nor everything")
     from whoosh import scoring
     cases, meta = [], []
-    for wi in range(8 if quick else 80):
-        missing = wi % 2 == 1
+    nworlds = 8 if quick else 80
+    # (after the general worlds, a number of small ones that are only asked for the best documents of each key at
+    # limits 1..5: see `tall` below)
+    for wi in list(range(nworlds)) + [1000 + j for j in range(14 if quick else 80)]:
+        heaponly = wi >= 1000
+        missing = wi % 2 == 1 and not heaponly
         # (a few very small indexes: a multi-valued field then has more values than the index has documents)
         n = rng.randrange(4, 10) if wi % 4 != 3 else rng.randrange(2, 5)
+        if heaponly:
+            n = rng.randrange(12, 20)
         adocs = dict(("k%d" % i, rand_doc(rng, missing)) for i in range(n))
+        tall = wi % 4 == 2 or heaponly
+        if tall:
+            # scores spread widely (1..12 occurrences of one word) over a few more documents: what is collected
+            # into, displaced from and pruned against the heap of a limited search differs from document to document
+            for i in range(n, n + 5):
+                adocs["k%d" % i] = rand_doc(rng, missing)
+            for d in adocs.values():
+                d["t"]["body"] = [[1]] * rng.randrange(1, 13)
+                if rng.random() < 0.4:
+                    d["k"]["tag"] = []
         plan = world.rand_plan(rng, adocs.keys(), max_segments=3)
         if missing and wi % 4 == 1:
             # a segment without any column for the sortable fields: none of its documents has a value
@@ -456,11 +484,15 @@ def check(run):
                                    "whenv": [secs(WHENS[i - 1]) for i in d["k"]["when"]]}, "b4": 4, "k": d["k"], "key": k})
             idx = {"docs": docs}
             qs = []
-            for qi in range(10 if quick else 16):
+            for qi in range((10 if quick else 16) if not heaponly else 1):
                 aq = world.rand_query(rng, rng.randrange(0, 3), scored_only=(qi % 2 == 0),
                                       ops=["term", "every", "prefix", "and", "or", "andnot", "andmaybe", "not", "null", "dismax"])
+                if tall and qi < 3:
+                    aq = {"op": "term", "f": "body", "t": [1], "b4": 4}
                 q = world.to_query(aq)
-                obs = observe(s, q, aq, rng, missing)
+                obs = observe(s, q, aq, rng, missing or tall, topks=(1, 2, 3, 4, 5) if tall else (2, 3, 5))
+                if heaponly:
+                    obs = [o for o in obs if o["kind"] in ("collapse", "error")]
                 run.count(len(obs))
                 qs.append({"q": aq, "obs": obs})
             if missing:
